@@ -167,6 +167,8 @@ func (s *supARFO) childStarted(cs supChildSpec, pid gen.PID) supAction {
 		return action
 	}
 
+	// the remaining children are running or disabled: the restart is complete
+	s.mode = 0 // normal
 	return action
 }
 
